@@ -96,9 +96,9 @@ runtime kinds are exactly the model's -/
 theorem C12_error_vocabulary :
     Generated.errorReasonFields = [("Parse", ["String"]), ("Runtime", ["RuntimeError"])]
     ∧ Generated.runtimeErrorFields =
-        [("InvalidSlice", []), ("TooManyArguments", ["expected", "actual"]), ("NotEnoughArguments", ["expected", "actual"]),
-         ("UnknownFunction", ["String"]), ("InvalidType", ["expected", "actual", "position"]),
-         ("InvalidReturnType", ["expected", "actual", "position", "invocation"])]
+        [("InvalidReturnType", ["expected", "actual", "position", "invocation"]), ("InvalidSlice", []),
+         ("InvalidType", ["expected", "actual", "position"]), ("NotEnoughArguments", ["expected", "actual"]),
+         ("TooManyArguments", ["expected", "actual"]), ("UnknownFunction", ["String"])]
     ∧ (∀ e : RtErr, Generated.runtimeErrorVariant e ∈ Generated.runtimeErrorFields.map (·.1)) := by
   refine ⟨rfl, rfl, ?_⟩
   intro e; cases e <;> simp [Generated.runtimeErrorVariant, Generated.runtimeErrorFields]
